@@ -14,6 +14,7 @@ Inductive op :=
 | OInner (be : bool) (n_modes : option nat)                                         (* [A; B] *)
 | OOuter (be : bool) | OBOuter (be : bool)                                          (* ts *)
 | OTdot (be : bool) (m1 m2 b1 b2 : list nat)                                        (* [A; B] *)
+| OTdotRaw (be : bool) (ma ba : marg)            (* [A; B]; modes / batched_modes in the argument form given to the code *)
 | OMttkrp (variant : nat) (hasw : bool) (mode : nat)      (* 0 core, 1 einsum, 2 memory; T :: fs ++ [w] *)
 | OMoment (be : bool) (order : nat)                                                 (* [T]; n_samples * moment *)
 | OSampleRows (skip : option nat) (inds : list (list nat)) (n : nat)                (* Ms *)
@@ -41,6 +42,8 @@ Definition run (o : op) (ts : list (tensor F)) : res (tensor F) :=
   | OBOuter be => (if be then batched_outer_e else batched_outer) Op ts
   | OTdot be m1 m2 b1 b2 =>
       match ts with [A; B] => (if be then tensordot_e else tensordot) Op A B m1 m2 b1 b2 | _ => Err end
+  | OTdotRaw be ma ba =>
+      match ts with [A; B] => tensordot_raw Op (negb be) A B ma ba | _ => Err end
   | OMttkrp v hasw mode =>
       match ts with
       | T :: rest =>
